@@ -35,9 +35,16 @@ class RG:
     @staticmethod
     def from_nx(g):
         """From a y0 NxMixedGraph (reads the two networkx graphs directly)."""
-        V = set(g.directed.nodes()) | set(g.undirected.nodes())
-        D = {(u, v) for u, v in g.directed.edges()}
-        B = {frozenset((u, v)) for u, v in g.undirected.edges()}
+        from y0.dsl import Variable
+
+        def n(x):
+            # a graph over plain strings (the identification entry points accept one) stands for the graph over the
+            # variables of exactly those names
+            return Variable(x) if isinstance(x, str) else x
+
+        V = {n(x) for x in g.directed.nodes()} | {n(x) for x in g.undirected.nodes()}
+        D = {(n(u), n(v)) for u, v in g.directed.edges()}
+        B = {frozenset((n(u), n(v))) for u, v in g.undirected.edges()}
         return RG(frozenset(V), frozenset(D), frozenset(B))
 
     # ---- elementary relations ----------------------------------------------------
